@@ -39,6 +39,10 @@ flows! {
     c31_snapshot(a: u32) -> (out: (usize, usize));
     c31_state(a: u32) -> (out: (u32, u32));
     c31_two(a: u32, b: u32) -> (out: (Vec<u32>, Vec<u32>));
+    c31_bk_stream(a: u32) -> (out: (Vec<u32>, usize));
+    c31_bk_keyed(a: u32) -> (out: (Vec<(u32, u32)>, usize));
+    c31_bk_singleton(a: u32) -> (out: (u32, usize));
+    c31_bk_optional(a: u32) -> (out: (Vec<u32>, usize));
     c34_counter(r: u32, w: u32) -> (ack: u32, read: (u32, usize));
     c34_sum(r: u32, w: u32) -> (ack: u32, read: (u32, u32));
     c34_yield_atomic(r: u32, w: u32) -> (ack: u32, read: (u32, u32));
